@@ -29,6 +29,50 @@ def flow():
     d = copy.deepcopy(rows); d[k]["procs"] = d[k]["procs"][:-1]
     print("  run set logged by the wiring phase shortened:", val(d))
 
+def flow_generic(inst, title, mutations):
+    exp = fc.expected(inst)
+    rr = fc.real_runs(inst, [dict(env={"VERIF_JITTER": "7"}, bufsize=inst.get("bufsize", 1))])[0]
+    rows = normalize_flow(rr.events, inst, end_record(rr))
+    def val(rows):
+        files = {"inst.json": inst_json(inst), "trace.ndjson": ndjson(rows), "expected.json": json.dumps(exp)}
+        r = run_tlc("FlowTrace", "ft.cfg", files=files, workers=1, cfgtext=fc.trace_cfg())
+        return "accepted" if r.ok else ("rejected at line %s" % (r.rejected[0] if r.rejected else r.violated or r.error))
+    print("FlowTrace, %s (%d events):" % (title, len(rows)), val(rows))
+    for label, fn in mutations:
+        a = copy.deepcopy(rows); line = fn(a)
+        print("  %s (line %s):" % (label, line), val(a))
+
+def combinator():
+    def swap(rows):     # two product values of one out-port exchanged
+        idx = [k for k, r in enumerate(rows) if r["e"] == "send.begin" and r["from"] == "pc.y>"]
+        i, j = idx[0], idx[1]
+        rows[i]["item"], rows[j]["item"] = rows[j]["item"], rows[i]["item"]
+        return i + 1
+    def drop(rows):     # one send of the combinator removed (begin and done)
+        i = next(k for k, r in enumerate(rows) if r["e"] == "send.begin" and r["from"] == "pc.z>")
+        j = next(k for k in range(i, len(rows)) if rows[k]["e"] == "send.done" and rows[k]["from"] == "pc.z>")
+        del rows[j]; del rows[i]
+        return i + 1
+    flow_generic(zoo.PC3(nx=1, ny=2, nz=2), "three-port ParamCombinator (its receives are silent steps)", [("two product values on one out-port exchanged", swap), ("one send of the combinator removed", drop)])
+
+def streaming():
+    inst = dict(name="ST", max=3, bufsize=2, procs=[zoo.src("s", zoo.items(2)), dict(name="p", kind="cmd", ins=["in"], outs=["out"], streams=["out"]), zoo.cmd("c", ["in"], ["out"])],
+                edges=[zoo.E("s.out", "p.in"), zoo.E("p.out", "c.in")])
+    def late(rows):     # the streaming IP is sent when the task is done, like an ordinary output
+        i = next(k for k, r in enumerate(rows) if r["e"] == "send.begin" and r["from"] == "p.out")
+        j = next(k for k in range(i, len(rows)) if rows[k]["e"] == "send.done" and rows[k]["from"] == "p.out")
+        d = next(k for k, r in enumerate(rows) if r["e"] == "done.recv" and r["proc"] == "p")
+        moved = [rows[i], rows[j]]
+        for k in (j, i): del rows[k]
+        d = next(k for k, r in enumerate(rows) if r["e"] == "done.recv" and r["proc"] == "p")
+        rows[d + 1:d + 1] = moved
+        return i + 1
+    def nofifo(rows):   # FIFO of another item created
+        i = next(k for k, r in enumerate(rows) if r["e"] == "fifo.create")
+        rows[i]["item"] = "p.out_9"
+        return i + 1
+    flow_generic(inst, "streaming pair x 2", [("streaming IP sent only after the task is done", late), ("fifo.create names another item", nofifo)])
+
 def taskfs():
     from checks.fs import FA
     inst = FA(); exp = fc.expected(inst)
@@ -50,4 +94,4 @@ def taskfs():
     print("  the cleanup step removed from the history:", val(c))
 
 if __name__ == "__main__":
-    build("wfdriver"); flow(); taskfs()
+    build("wfdriver"); flow(); combinator(); streaming(); taskfs()
